@@ -192,7 +192,7 @@ def run_batches(ctx, scenarios, procs=6, batch=60, rounds=6):
                                    stderr=subprocess.STDOUT, text=True, timeout=600)
             except subprocess.TimeoutExpired:
                 raise vlib.Inconclusive("coresim batch %d/%d timed out" % (rnd, idx))
-            last = p.stdout.strip().splitlines()[-1] if p.stdout.strip() else ""
+            last = next((x for x in reversed(p.stdout.strip().splitlines()) if x.startswith("scenarios=")), "")
             if p.returncode != 0 or not last.startswith("scenarios="):
                 ctx.save_debug(type("R", (), {"out": p.stdout})(), "coresim_r%d_%d.txt" % (rnd, idx))
                 raise vlib.Inconclusive("coresim batch failed rc=%d: %s" % (p.returncode, vlib.tail(p.stdout, 12)))
